@@ -151,6 +151,57 @@ func init() {
 			})
 		}
 
+		// --- the F06 repair (a2ca477): chkInfo.Recs = number of records the hull accounts for; syncChunks drops entries
+		// whose chunk holds more (dropStale), the chunk is then light-filled like an unknown one
+		assignsField := func(recv, fn, field string) bool {
+			found := false
+			if fd := funcDecl(fc, recv, fn); fd != nil {
+				ast.Inspect(fd.Body, func(n ast.Node) bool {
+					if as, ok := n.(*ast.AssignStmt); ok {
+						for _, l := range as.Lhs {
+							if se, ok := l.(*ast.SelectorExpr); ok && se.Sel.Name == field {
+								found = true
+							}
+						}
+					}
+					return true
+				})
+			}
+			return found
+		}
+		callsMethod := func(recv, fn, callee string) bool {
+			found := false
+			if fd := funcDecl(fc, recv, fn); fd != nil {
+				ast.Inspect(fd.Body, func(n ast.Node) bool {
+					if ce, ok := n.(*ast.CallExpr); ok {
+						if se, ok := ce.Fun.(*ast.SelectorExpr); ok && se.Sel.Name == callee {
+							found = true
+						}
+					}
+					return true
+				})
+			}
+			return found
+		}
+		onWriteSetsRecs := assignsField("cindex", "onWrite", "Recs")
+		lightFillSetsRecs := assignsField("cindex", "lightFill", "Recs")
+		dropsStale := callsMethod("cindex", "syncChunks", "dropStale")
+		dropStaleStrict := false // stale means Count() > Recs
+		if fd := funcDecl(fc, "sortedChunks", "dropStale"); fd != nil {
+			ast.Inspect(fd.Body, func(n ast.Node) bool {
+				if be, ok := n.(*ast.BinaryExpr); ok && be.Op == token.GTR {
+					if se, ok := be.Y.(*ast.SelectorExpr); ok && se.Sel.Name == "Recs" {
+						dropStaleStrict = true
+					}
+				}
+				return true
+			})
+		}
+		staleRepair := onWriteSetsRecs && lightFillSetsRecs && dropsStale && dropStaleStrict
+		if (onWriteSetsRecs || lightFillSetsRecs || dropsStale) && !staleRepair {
+			problem("cindex: the stale-entry handling (onWrite/lightFill set Recs, syncChunks calls dropStale, stale = Count() > Recs) is only partly recognised: onWrite=%v lightFill=%v syncChunks=%v strict=%v", onWriteSetsRecs, lightFillSetsRecs, dropsStale, dropStaleStrict)
+		}
+
 		// --- ckindex.go
 		fk := parseFile("pkg/tmindex/ckindex.go")
 		maxRecs, ok := intConst(fk, "maxRecsPerBlock")
@@ -343,6 +394,8 @@ func init() {
 		l.p("def rebuildSegmentIsStrictLess : Bool := %s", leanBool(rebuildSegLess))
 		l.p("/-- `rebuildIndexInt`: value the maximum of a segment starts from (`RecordsInfo{MinTs: math.MaxInt64}` leaves MaxTs = 0) -/")
 		l.p("def rebuildSegmentMaxInit : Int := %s", segMaxInit)
+		l.p("/-- `syncChunks` drops what the index knows about a chunk that holds more records than the entry accounts for (`Recs`, set by `onWrite` and `lightFill`); the chunk is then light-filled like an unknown one (fix a2ca477) -/")
+		l.p("def syncChunksDropsStaleEntries : Bool := %s", leanBool(staleRepair))
 		l.p("/-- `lightFill` treats `MaxTs > 0` as \"hull known\" -/")
 		l.p("def lightFillKnownMeansPositive : Bool := %s", leanBool(lightFillPositive))
 		l.p("/-- `maxRecsPerBlock`: records per index block -/")
